@@ -7,6 +7,6 @@ for id in $ids; do
   d=seeded/$id
   [ -f $d/patch.diff ] || continue
   echo "=== $id"
-  scripts/seedconfirm.sh $d $(cat $d/confirm.txt) | tail -1
+  if [ -f $d/NEUTRALISED.txt ]; then echo NEUTRALISED; else scripts/seedconfirm.sh $d $(cat $d/confirm.txt) | tail -1; fi
   SHOW=1 scripts/seedtest.sh $d/patch.diff quick $(cat $d/checks.txt) 2>&1 | tee $d/result-quick.txt | grep -E "^\[" 
 done
